@@ -17,7 +17,7 @@ RULE = ("generated programs (the statement language of C16: variables, rules, @m
 EXHAUSTIVE = {"quick": False, "thorough": False}
 TRUSTED = ["python: the rewriters themselves (they must be meaning-preserving in Sass); the SCSS printer of the statement language",
            "Model/EvArgs.v norm = sass/name.rs Name::from (replace('-', \"_\")), tied by the C18/C37 correspondences"]
-ASSUMPTIONS = ["whitespace/comment insertion is exercised at statement boundaries and after commas only (parser-level: no theorem)",
+ASSUMPTIONS = ["whitespace/comment insertion (token level: every existing whitespace, after `{ ; } , (`, before `} ; , )`, around `:`; never before `(`; selectors and @media queries get whitespace only) is parser-level: no theorem",
                "consistent renaming, hoisting and import splitting are checked by the metamorphic comparison only (no theorem)"]
 
 
@@ -137,21 +137,122 @@ def rw_hoist(p, rng):
     return p
 
 
-WS = re.compile(r"(; |\{ | \}|, )")
+TOK = re.compile(r'''
+    (?P<ws>\s+)
+  | (?P<str>"[^"]*")
+  | (?P<interp>\#\{[^}]*\})
+  | (?P<var>\$[A-Za-z0-9_-]+(?:\.\.\.)?)
+  | (?P<at>@[A-Za-z-]+)
+  | (?P<bang>![a-z]+)
+  | (?P<op>!=|==|<=|>=)
+  | (?P<word>[A-Za-z0-9_.%-]+)
+  | (?P<p>.)
+''', re.X | re.S)
+
+SEL_AT = {"@media"}
 
 
-def rw_space(txt, rng):
-    def sub(m):
+def tokenize(txt):
+    out = []
+    for m in TOK.finditer(txt):
+        out.append((m.lastgroup, m.group(0)))
+    return out
+
+
+def is_cmp(tok):
+    return tok is not None and ((tok[0] == "op") or (tok[0] == "p" and tok[1] in "<>"))
+
+
+def rw_space(txt, rng, rate=0.25, tags=None):
+    """insert whitespace / `// comment` + newline between adjacent tokens wherever that cannot change the meaning:
+    at every existing whitespace, after `{ ; } , (`, before `} ; , )`, around the `:` of declarations, variable
+    declarations, parameter defaults, keyword arguments and map entries.  Never before `(` (call syntax), never inside
+    a token (strings, interpolation, `$x...`, numbers with units); selectors and @media queries get whitespace only."""
+    toks = [t for t in tokenize(txt)]
+    colon_ok = [False]
+    # statement kinds: a statement that ends in `{` and does not start with `$` or an at-keyword other than @media is a selector
+    n = len(toks)
+    sel = [False] * n
+    depth = 0
+    start = 0
+    for i, (k, t) in enumerate(toks):
+        if k == "p" and t == "(":
+            depth += 1
+        elif k == "p" and t == ")":
+            depth -= 1
+        if k == "p" and t in "{;}" and depth == 0:
+            if t == "{":
+                first = next(((kk, tt) for kk, tt in toks[start:i] if kk != "ws"), None)
+                if first and (first[0] in ("word", "p", "interp") or (first[0] == "at" and first[1] in SEL_AT)):
+                    for q in range(start, i + 1):
+                        sel[q] = True
+            start = i + 1
+
+    near_cmp = [False]
+
+    def ws(comment_ok):
         r = rng.random()
-        t = m.group(1)
-        if r < 0.5:
-            return t
-        if r < 0.7:
-            return t + rng.choice(["  ", "\n", "\t", " \n  "])
-        if r < 0.9:
-            return t + "// note %d\n" % rng.randrange(100)
-        return t + "  // x { y: z }\n "
-    return WS.sub(sub, txt)
+        if comment_ok and r < 0.45:
+            if near_cmp[0] and tags is not None:
+                tags.add("comment-at-comparison")
+            return rng.choice([" // note %d\n", "// n%d\n ", "  // x { y: %d }\n "]) % rng.randrange(100)
+        return rng.choice([" ", "  ", "\n", "\t", " \n  "])
+
+    nows = [(k, t) for k, t in toks if k != "ws"]
+    out = []
+    depth = 0
+    prev = None        # previous non-ws token
+    prev2 = None
+    i = 0
+    while i < n:
+        k, t = toks[i]
+        if k == "ws":
+            nxt = toks[i + 1] if i + 1 < n else None
+            near_cmp[0] = is_cmp(prev) or is_cmp(nxt)
+            if prev is None or nxt is None or rng.random() >= rate:
+                out.append(t)
+            elif sel[i]:
+                out.append(t + ws(False))
+            else:
+                comment_ok = not (prev[0] == "at" or nxt[0] == "bang" or (nxt[0] == "p" and nxt[1] == "{")
+                                  or (nxt[0] == "p" and nxt[1] == "("))
+                out.append(t + ws(comment_ok))
+            i += 1
+            continue
+        # gap without whitespace between prev and this token
+        if prev is not None and toks[i - 1][0] != "ws" and rng.random() < rate:
+            pk, pt = prev
+            ins = None
+            near_cmp[0] = is_cmp(prev) or is_cmp((k, t))
+            if sel[i]:
+                if (pk == "p" and pt == ",") or (k == "p" and t == ","):
+                    ins = ws(False)
+            elif k == "p" and t == "(":
+                ins = None
+            elif pk == "p" and pt in "{;},(":
+                ins = ws(True)
+            elif k == "p" and t in "};,)":
+                ins = ws(True)
+            elif k == "p" and t == ":" and (pk == "var" or depth > 0 or
+                                            (pk == "word" and (prev2 is None or (prev2[0] == "p" and prev2[1] in "{;}")))):
+                ins = ws(True)
+            elif pk == "p" and pt == ":" and depth >= 0 and out and colon_ok[-1]:
+                ins = ws(True)
+            if ins:
+                out.append(ins)
+        if k == "p" and t == ":":
+            ok = (prev is not None and (prev[0] == "var" or depth > 0 or
+                  (prev[0] == "word" and (prev2 is None or (prev2[0] == "p" and prev2[1] in "{;}"))))) and not sel[i]
+            colon_ok.append(ok)
+        if k == "p" and t == "(":
+            depth += 1
+        elif k == "p" and t == ")":
+            depth -= 1
+        out.append(t)
+        prev2, prev = prev, (k, t)
+        i += 1
+    return "".join(out)
+
 
 
 def split_import(p, rng):
@@ -167,6 +268,10 @@ FIXED = [
     "@mixin bo-x($wi_dth: 10px, $re-st...) { width: $wi-dth; rest: inspect($re_st); } a { @include bo_x(1px, 2, 3); } b { @include bo-x($wi-dth: 3px); }",
     "$li-st: (1, 2, 3); @function su-m($l) { $t: 0; @each $i in $l { $t: $t + $i; } @return $t; } a { s: su_m($li_st); }",
     "$ma_p: (k-1: 1, k_2: 2); a { @each $k, $v in $ma-p { #{$k}: $v; } }",
+    "@mixin pa-d($x: 1px, $y: 2px) { padding: $y $x; } @function sca-le($n, $fa_ctor: 2, $unit: 1px) { @return $n * $fa-ctor * $unit; } "
+    ".box, .bo-x2 { @include pa_d($y: 4px); width: sca_le(3); height: sca-le(2, $unit: 1em); }",
+    "@function pi-ck($m, $k: b, $d: (1, 2)) { @return map-get($m, $k); } $ma-p: (a: 1, b: (x: 2, y: 3), c: 4); "
+    "i, j { v: inspect(pi_ck($ma_p)); w: pi-ck($ma-p, c); u: inspect(pi-ck($k: a, $m: $ma-p)); }",
 ]
 
 
@@ -180,7 +285,7 @@ def gen_cases(ctx, tier):
         kinds = rng.sample(["space", "rename", "dash", "hoist", "debug", "import"], rng.randrange(1, 4))
         cases.append({"p": p, "kinds": sorted(kinds), "seed": rng.randrange(1 << 30)})
     for t in FIXED:
-        for s in range(4 * mult):
+        for s in range(12 * mult):
             cases.append({"text": t, "kinds": ["dash", "space"], "seed": rng.randrange(1 << 30)})
     return cases
 
@@ -206,8 +311,9 @@ def build(c):
             pairs.append((s, t))
             return t
         rew = re.sub(r"\b(dou[-_]ble|ba[-_]se|n[-_]1|bo[-_]x|wi[-_]dth|re[-_]st|li[-_]st|su[-_]m|ma[-_]p)\b", swp, base)
-        rew = rw_space(rew, rng)
-        return {"main.scss": base}, {"main.scss": rew}, pairs, None
+        tags = set()
+        rew = rw_space(rew, rng, tags=tags)
+        return {"main.scss": base}, {"main.scss": rew}, pairs, None, sorted(tags)
     p = c["p"]
     bp = P35(rng)
     main = bp.body(p)
@@ -227,9 +333,10 @@ def build(c):
         frag = strip_ext(frag)
     else:
         files = {"main.scss": "\n".join(rp.defs + [rp.body(q)])}
+    tags = set()
     if "space" in kinds:
-        files = {k: rw_space(v, rng) for k, v in files.items()}
-    return base, files, rp.pairs, frag
+        files = {k: rw_space(v, rng, tags=tags) for k, v in files.items()}
+    return base, files, rp.pairs, frag, sorted(tags)
 
 
 def strip_ext(b):
@@ -259,7 +366,7 @@ def req(files):
 
 
 def impl_requests(c):
-    base, rew, _, _ = build(c)
+    base, rew = build(c)[:2]
     return [req(base), req(rew)]
 
 
@@ -273,18 +380,19 @@ def out_term(o):
 
 
 def coq_term(c, io):
-    _, _, pairs, frag = build(c)
+    _, _, pairs, frag, tags = build(c)
     ps = clist(["(%s, %s)" % (cstring(a), cstring(b)) for a, b in pairs[:12]])
     fr = "None" if frag is None else "(Some %s)" % b_coq(frag)
-    return "(mkCase %s %s %s %s)" % (out_term(io[0]), out_term(io[1]), ps, fr)
+    tg = clist([cstring(t) for t in tags])
+    return "(mkCase %s %s %s %s %s)" % (out_term(io[0]), out_term(io[1]), ps, fr, tg)
 
 
-KCLASS = {0: None, 1: "known_C35_K1_import_scope"}
+KCLASS = {0: None, 1: "known_C35_K1_import_scope", 2: "known_C35_K2_comment_at_comparison"}
 
 
 def judge(c, io, r):
     corr, ok, k = r
-    base, rew, _, _ = build(c)
+    base, rew = build(c)[:2]
     return {
         "corr": None if corr == 2 else corr == 1,
         "clauses": [("same-output", ok == 1, KCLASS[k])],
